@@ -387,15 +387,20 @@ Definition lit_pom (ups : list pupd) (i : nat) (p : pom) : pom :=
 Definition lit_chain (c : chain) (ups : list pupd) : chain :=
   map (fun ip => lit_pom ups (fst ip) (snd ip)) (indexed O c).
 
+Definition tgt_ok (c : chain) (u : pupd) : Prop := exists p0 d0, target_facts c u p0 d0.
+
+Lemma lit_tgt c u : lit_ok c u -> tgt_ok c u.
+Proof. intros (p0 & d0 & TF & _). exists p0, d0. exact TF. Qed.
+
 (* the patch of u is filed where pom i looks iff u is addressed to pom i *)
 Lemma patch_of_here c ups u i p o :
-  chain_wf c = true -> (forall u, In u ups -> lit_ok c u) -> In u ups -> In (i, p) (indexed O c) ->
+  chain_wf c = true -> (forall u, In u ups -> tgt_ok c u) -> In u ups -> In (i, p) (indexed O c) ->
   match patch_of c u with
   | DepPatch pa o' k t _ => if beq pa (patch_path i p) && beq o' o then [(k, t)] else []
   | PropPatch _ _ _ _ => []
   end = if Nat.eqb (pu_pom u) i && beq (pu_origin u) o then [(pu_key u, pu_to u)] else [].
 Proof.
-  intros HW HL Hu Hip. destruct (HL u Hu) as (p0 & d0 & TF & _).
+  intros HW HL Hu Hip. destruct (HL u Hu) as (p0 & d0 & TF).
   unfold patch_of. rewrite (target_nth c u p0 d0 TF).
   destruct (Nat.eqb (pu_pom u) i) eqn:E.
   - apply Nat.eqb_eq in E. subst i. rewrite (indexed_fun _ _ _ _ _ Hip (tf_pom _ _ _ _ TF)). rewrite beq_refl. reflexivity.
@@ -405,7 +410,7 @@ Proof.
 Qed.
 
 Lemma dep_patches_at_lit c ups i p o : forall sub,
-  chain_wf c = true -> (forall u, In u ups -> lit_ok c u) -> In (i, p) (indexed O c) -> (forall u, In u sub -> In u ups) ->
+  chain_wf c = true -> (forall u, In u ups -> tgt_ok c u) -> In (i, p) (indexed O c) -> (forall u, In u sub -> In u ups) ->
   dep_patches_at (map (patch_of c) sub) (patch_path i p) o =
   flat_map (fun u => if Nat.eqb (pu_pom u) i && beq (pu_origin u) o then [(pu_key u, pu_to u)] else []) sub.
 Proof.
@@ -457,11 +462,11 @@ Proof. induction l as [|x l IH]; simpl; auto. intros H. rewrite (H x) by auto. r
 
 (* an update filed under the "parent" origin of pom i is addressed to the <parent> reference of pom i *)
 Lemma parent_cond_addresses c u i p d :
-  chain_wf c = true -> lit_ok c u -> In (i, p) (indexed O c) -> In d (pm_decls p) -> dl_origin d = PARENT ->
+  chain_wf c = true -> tgt_ok c u -> In (i, p) (indexed O c) -> In d (pm_decls p) -> dl_origin d = PARENT ->
   Nat.eqb (pu_pom u) i && beq (pu_origin u) (dl_origin d) = true ->
   addresses u i d = true /\ pu_key u = dl_key d.
 Proof.
-  intros HW (p0 & d0 & TF & _) Hip Hd Ep E.
+  intros HW (p0 & d0 & TF) Hip Hd Ep E.
   apply andb_true_iff in E as [Ei Eo]. pose proof Ei as Ei'. apply Nat.eqb_eq in Ei. apply beq_eq in Eo. subst i.
   pose proof (indexed_fun _ _ _ _ _ Hip (tf_pom _ _ _ _ TF)) as ->.
   assert (d0 = d).
@@ -474,7 +479,7 @@ Proof.
 Qed.
 
 Lemma write_decl_lit c ups i p d :
-  chain_wf c = true -> NoDup (map pu_key ups) -> (forall u, In u ups -> lit_ok c u) ->
+  chain_wf c = true -> NoDup (map pu_key ups) -> (forall u, In u ups -> tgt_ok c u) ->
   In (i, p) (indexed O c) -> In d (pm_decls p) ->
   write_decl (map (patch_of c) ups) (patch_path i p) d = Some (lit_decl ups i d).
 Proof.
@@ -487,7 +492,7 @@ Proof.
                     match find (fun u => addresses u i d) ups with Some u => [(pu_key u, pu_to u)] | None => [] end).
     { revert HN HL. induction ups as [|u r IH]; intros HN HL; [reflexivity|].
       simpl. inversion HN as [|? ? Hnotin HN']; subst.
-      assert (HLr : forall u', In u' r -> lit_ok c u') by (intros; apply HL; right; auto).
+      assert (HLr : forall u', In u' r -> tgt_ok c u') by (intros; apply HL; right; auto).
       destruct (Nat.eqb (pu_pom u) i && beq (pu_origin u) (dl_origin d)) eqn:E.
       - destruct (parent_cond_addresses c u i p d HW (HL u (or_introl eq_refl)) Hip Hd Ep E) as [HA HK].
         rewrite HA. simpl. f_equal. apply flat_map_nil. intros u' Hu'.
@@ -500,7 +505,7 @@ Proof.
   - rewrite find_key_here.
     destruct (find (fun u => addresses u i d) ups) as [u|] eqn:Ef; simpl.
     + (* the addressed declaration has a version *)
-      apply find_some in Ef as [Hu HA]. destruct (HL u Hu) as (p0 & d0 & TF & _).
+      apply find_some in Ef as [Hu HA]. destruct (HL u Hu) as (p0 & d0 & TF).
       destruct (addressed_is_target c u p0 d0 i p d HW TF Hip Hd HA) as (_ & _ & ->).
       pose proof (tf_ver _ _ _ _ TF) as Hv. destruct (dl_ver d0); [contradiction|reflexivity].
     + destruct (is_nil (dl_ver d)); reflexivity.
@@ -522,7 +527,7 @@ Lemma write_pom_lit c ups i p :
   write_pom (map (patch_of c) ups) i p = Some (lit_pom ups i p).
 Proof.
   intros HW HN HL Hip. unfold write_pom.
-  rewrite (all_some_map _ (lit_decl ups i)) by (intros d Hd; apply (write_decl_lit c ups i p d); auto).
+  rewrite (all_some_map _ (lit_decl ups i)) by (intros d Hd; apply (write_decl_lit c ups i p d); auto; intros u0 Hu0; apply lit_tgt; auto).
   rewrite added_pairs_lit. simpl map. rewrite insert_added_nil.
   assert (Ed : match i with
                | O => if pm_empty_mgmt p then map (lit_decl ups i) (pm_decls p) else map (lit_decl ups i) (pm_decls p)
